@@ -788,7 +788,7 @@ func (e *xstore) do(op string) {
 		if e.ociSt == nil {
 			return
 		}
-		roots, safe := e.gcPlan()
+		_, safe := e.gcPlan()
 		if !safe {
 			run.Count("gc-skipped-unsafe-shape")
 			e.script = e.script[:len(e.script)-1]
@@ -815,13 +815,19 @@ func (e *xstore) do(op string) {
 			return
 		}
 		e.sawGC = true
-		e.mops = append(e.mops, "Z")
-		for _, r := range roots {
-			e.mops = append(e.mops, fmt.Sprintf("A%d", r))
-			e.toks = append(e.toks, "ok")
-		}
+		// The model is told which blobs the sweep removed and rebuilds the graph by IndexAll
+		// over every manifest that survived: GC keeps exactly the blobs of the rebuilt graph,
+		// so the surviving manifests are the rebuilt graph's manifests whatever root order
+		// gcIndex iterated in.
 		for _, v := range e.refreshStored() {
 			e.mops = append(e.mops, fmt.Sprintf("-%d", v))
+		}
+		e.mops = append(e.mops, "Z")
+		for _, n := range e.u.g.Nodes {
+			if n.IsManifest() && e.stored[n.ID] {
+				e.mops = append(e.mops, fmt.Sprintf("A%d", n.ID))
+				e.toks = append(e.toks, "ok")
+			}
 		}
 	case "reopen":
 		if e.ociSt == nil {
@@ -1092,6 +1098,12 @@ func genStore(r *common.Rand, kind string, origin string) {
 				}
 			}
 			e.do("gc")
+			if e.sawGC && r.Chance(1, 3) {
+				if tr := e.taggedRoots(); len(tr) > 0 {
+					e.do(fmt.Sprintf("delete:%d", common.Pick(r, tr)))
+					e.do("reopen:" + common.Pick(r, []string{"dir", "fs", "tar"}))
+				}
+			}
 		default:
 			e.do("reopen:" + common.Pick(r, []string{"dir", "dir", "fs", "tar"}))
 		}
